@@ -106,6 +106,8 @@ impl ShortSrc {
         let chunk = [usize::MAX, 1, 7, 4000][(crc32fast::hash(&b) % 4) as usize];
         ShortSrc { inner: Cursor::new(b), chunk }
     }
+    /// the largest number of bytes one `read` delivers
+    pub fn chunk(&self) -> usize { self.chunk }
 }
 impl std::io::Read for ShortSrc {
     fn read(&mut self, buf: &mut [u8]) -> std::io::Result<usize> {
@@ -410,7 +412,7 @@ pub fn rand_opts(r: &mut Rng, allow_pw: bool) -> Opts {
     }
 }
 
-fn rand_utf8_name(r: &mut Rng) -> Vec<u8> {
+pub fn rand_utf8_name(r: &mut Rng) -> Vec<u8> {
     if r.chance(1, 4) {
         // non-ASCII names: the UTF-8 flag must be set, also together with the encryption bit
         let pool = ["caf\u{e9}.txt", "\u{65e5}\u{672c}\u{8a9e}/\u{30d5}\u{30a1}\u{30a4}\u{30eb}", "na\u{ef}ve\\path", "\u{1f600}", "a\u{80}b", "dir\u{e9}/"];
